@@ -452,6 +452,9 @@ where
                 .annotations()
                 .filter_all(annotations.deref().clone(), data.rootstore())
                 .test(),
+            Filter::Annotation(annotation, SelectionQualifier::Normal, _) => {
+                data.annotations().filter_handle(*annotation).test()
+            }
             Filter::Data(_, FilterMode::All, _) => {
                 unreachable!("not handled by this iterator but by FilterAllIter")
             }
